@@ -175,6 +175,38 @@ let c02_chk_state t =
   let fc = if ti t = 1 then Some (p_bv t) else None in
   "ok=" ^ sb (not bad && state_ok b g a fc u)
 
+(* ---------- C04 ---------- *)
+let parse_sstate t =
+  let me = tz t in
+  let nh = ti t in
+  let heads = tlist t nh (fun t -> let a = tz t in let h = tz t in (a, h)) in
+  let nn = ti t in
+  let need = tlist t nn (fun t -> let a = tz t in let rs = p_ranges t in (a, rs)) in
+  let np = ti t in
+  let partial = tlist t np (fun t -> let a = tz t in let m = ti t in
+                             (a, tlist t m (fun t -> let v = tz t in let rs = p_ranges t in (v, rs)))) in
+  { ss_actor = me; ss_heads = heads; ss_need = need; ss_partial = partial }
+let fmt_need = function
+  | Full (s, e) -> "F" ^ sz s ^ "-" ^ sz e
+  | Partial (v, seqs) -> "P" ^ sz v ^ "[" ^ fmt_ranges seqs ^ "]"
+let fmt_needs out =
+  let out = List.sort (fun (a, _) (b, _) -> compare (int_of_z a) (int_of_z b)) out in
+  join ";" (fun (a, l) -> sz a ^ ":" ^ String.concat " " (List.sort compare (List.map fmt_need l))) out
+let c04_needs t =
+  let us = parse_sstate t in let other = parse_sstate t in
+  fmt_needs (compute_available_needs us other)
+(* chk_needs <vmax> <qmax> <us> <other> <nout> { a <k> { F s e | P v K{s e} } } *)
+let c04_chk t =
+  let vmax = tz t in let qmax = tz t in
+  let us = parse_sstate t in let other = parse_sstate t in
+  let n = ti t in
+  let out = tlist t n (fun t -> let a = tz t in let k = ti t in
+     (a, tlist t k (fun t -> match tok t with
+        | "F" -> let s = tz t in let e = tz t in Full (s, e)
+        | "P" -> let v = tz t in let rs = p_ranges t in Partial (v, rs)
+        | x -> failwith ("bad need " ^ x)))) in
+  "ok=" ^ sb (check_needs us other out vmax qmax)
+
 (* ---------- dispatch ---------- *)
 let handlers : (string * (toks -> string)) list ref = ref [
   "chunks", c08_chunks;
@@ -183,6 +215,8 @@ let handlers : (string * (toks -> string)) list ref = ref [
   "chk_range", c08_chk_range;
   "book", c02_book;
   "chk_bstate", c02_chk_state;
+  "needs", c04_needs;
+  "chk_needs", c04_chk;
 ]
 
 let () =
